@@ -1,16 +1,23 @@
 #!/bin/bash
-# seed_confirm2.sh <PROP> <i>: like seed_confirm.sh, for the second round (/tmp/seed2-<PROP>).
+# seed_confirm2.sh <PROP> <i>: like seed_confirm.sh, for the later rounds (SEED_PREFIX, default
+# /tmp/seed2-; results in CONFIRM_OUT, default /tmp/confirm2).  Demonstrations that are unit-test
+# modules are placed by the PLACE variable: "append" (end of src/server/cloud/server.rs), "inside"
+# (inside its mod tests), default: integration test in tests/.
 P="$1"; I="$2"
 WT=/tmp/wt-confirm
-OUT=/tmp/confirm2; mkdir -p $OUT
+OUT=${CONFIRM_OUT:-/tmp/confirm2}; mkdir -p $OUT
+SP=${SEED_PREFIX:-/tmp/seed2-}
 F="--no-default-features --features server-local,server-sync,server-git,storage-sqlite,bundled,tls-webpki-roots,cloud"
 export CARGO_NET_OFFLINE=true CARGO_TARGET_DIR=/tmp/wt-confirm-target
 unset RUSTFLAGS CARGO_ENCODED_RUSTFLAGS
 [ -d $WT ] || git -C /repo worktree add -q --detach $WT HEAD
 cd $WT && git checkout -q -- . && git clean -fdq tests src
-DIFF=/tmp/seed2-$P/change$I.diff; DEMO=/tmp/seed2-$P/demo$I.rs
+DIFF=$SP$P/change$I.diff; DEMO=$SP$P/demo$I.rs
 place_demo() {
-  case "$P-$I" in
+  case "${PLACE:-$P-$I}" in
+    append) cat $DEMO >> src/server/cloud/server.rs; KIND=lib;;
+    inside) f=src/server/cloud/server.rs; head -n -1 $f > $f.new; cat $DEMO >> $f.new; echo '}' >> $f.new; mv $f.new $f; KIND=lib;;
+    test) cp $DEMO tests/seed_demo.rs; KIND=test;;
     C09-1|C09-2|C11-2) cat $DEMO >> src/server/cloud/server.rs; KIND=lib;;
     C10-1|C10-2|C13-1|C12-2) f=src/server/cloud/server.rs; head -n -1 $f > $f.new; cat $DEMO >> $f.new; echo '}' >> $f.new; mv $f.new $f; KIND=lib;;
     C08-1) cp $DEMO src/server/cloud/c08_demo1.rs; printf '\n#[cfg(all(test, feature = "cloud"))]\nmod c08_demo1;\n' >> src/server/cloud/mod.rs; KIND=lib; NAME=c08_demo1;;
